@@ -3,11 +3,14 @@
  * Eight table variables (0..7), all `new_raw(Table, Int, Int)` at start.  Ops (one per line):
  *   new <t> <I|S|P>          tables[t] = new_raw(Table, Int,Int | String,Int | PKey,PVal)      (old one deleted)
  *   set <t> <key> <val>      key: kind I `<int>`, kinds S/P `<text>:<hash>`   (P: text = decimal id, hash = what its Hash returns;
- *   rem|get|mem <t> <key>                                                      S: hash must be the real hash(text), it is checked)
+ *   rem|get|mem <t> <key>                                                      S: hash must be the real hash(text), it is checked;
+ *                            S text: letters, digits, `_`, and `~hh` (two lower-case hex digits) for any other non-zero byte, so that
+ *                            keys can differ in case, in bit 7, in the last byte, or be prefixes of one another: one spelling per byte string)
  *   len|iter|riter|check <t>
  *   resize <t> <n>           assign <dst> <src> (dst == src allowed)    copy <dst> <src>  (tables[dst] = copy(tables[src]))
  *   getk <t> <key>           p = the key object the table stores for <key> (record of v = get(t, key)); get(t, p)   (path of foreach + get)
- *   getv <t> <key>           get(t, get(t, key)): the key argument is the *value* object of one of the table's own records
+ *   getv <t> <key>           get(t, get(t, key)): the key argument is the *value* object of one of the table's own records (since fix
+ *                            bc940bb it is read like any other object: cast to the key type, hashed, probed)
  *   newp <t> <I|S|P> k1 v1 ... kn vn [k]   tables[t] = new(Table, K, V, k1, v1, ...)  (a trailing single token: odd count, FormatError)
  *   assignm <t> <I|S|P> k1 v1 ... kn vn    assign(tables[t], m) for a map m that is not a Table: a probe type (Len, Iter, Get with key_type/val_type)
  *                            whose foreach yields the keys in the order given and whose get answers the value paired with the key object (n <= 30)
@@ -132,12 +135,40 @@ static int seen_ok(int kind, const char* name, uint64_t hash) {
 static int kinds[NT]; static int managed[NT];
 static size_t cur_line = 0;
 
-static void slot_key_name(struct Table* t, int kind, size_t i, char* out, size_t n) {
-  var k = Table_Key(t, i);
+/* String key text <-> bytes: plain = [0-9A-Za-z_]; every other non-zero byte is `~hh`; the escape is required for exactly those */
+static int plain_byte(unsigned char c) { return (c >= '0' && c <= '9') || (c >= 'a' && c <= 'z') || (c >= 'A' && c <= 'Z') || c == '_'; }
+static int lhex(char c) { return c >= '0' && c <= '9' ? c - '0' : c >= 'a' && c <= 'f' ? c - 'a' + 10 : -1; }
+static void encode_name(const char* raw, char* out, size_t n) {
+  size_t o = 0;
+  for (const unsigned char* p = (const unsigned char*)raw; *p; p++) {
+    if (plain_byte(*p)) { if (o + 2 > n) break; out[o++] = (char)*p; }
+    else { if (o + 4 > n) break; snprintf(out + o, 4, "~%02x", (unsigned)*p); o += 3; }
+  }
+  out[o < n ? o : n - 1] = 0;
+}
+/* -> number of bytes, or -1 when `txt` is not a well-formed key text */
+static int decode_name(const char* txt, size_t len, char* raw, size_t n) {
+  size_t o = 0;
+  for (size_t i = 0; i < len; ) {
+    if (o + 1 >= n) return -1;
+    if (txt[i] == '~') {
+      if (i + 2 >= len) return -1;
+      int a = lhex(txt[i + 1]), b = lhex(txt[i + 2]);
+      if (a < 0 || b < 0) return -1;
+      int v = a * 16 + b;
+      if (v == 0 || plain_byte((unsigned char)v)) return -1;
+      raw[o++] = (char)v; i += 3;
+    } else if (plain_byte((unsigned char)txt[i])) raw[o++] = txt[i++];
+    else return -1;
+  }
+  raw[o] = 0; return (int)o;
+}
+static void obj_key_name(int kind, var k, char* out, size_t n) {
   if (kind == KI) snprintf(out, n, "%" PRId64, (int64_t)c_int(k));
-  else if (kind == KS) snprintf(out, n, "%s", c_str(k));
+  else if (kind == KS) encode_name(c_str(k), out, n);
   else snprintf(out, n, "%" PRId64, ((struct PKey*)k)->id);
 }
+static void slot_key_name(struct Table* t, int kind, size_t i, char* out, size_t n) { obj_key_name(kind, Table_Key(t, i), out, n); }
 static int64_t val_int(int kind, var v) { return kind == KP ? ((struct PVal*)v)->v : (int64_t)c_int(v); }
 static int64_t slot_val(struct Table* t, int kind, size_t i) { return val_int(kind, Table_Val(t, i)); }
 
@@ -181,7 +212,7 @@ static const char* dump(struct Table* t, int kind, int have_key, uint64_t keyhas
 }
 
 /* ------------------------------------------------------------------ key / value objects for the calls */
-typedef struct { char name[40]; uint64_t hash; int64_t id; } KeyTok;
+typedef struct { char name[40]; char raw[40]; uint64_t hash; int64_t id; } KeyTok;     /* raw: the bytes of a String key (name = its text) */
 
 static int parse_i64(const char* s, int64_t* out) {
   if (!*s) return 0; char* e; errno = 0; long long v = strtoll(s, &e, 10);
@@ -206,13 +237,13 @@ static int parse_key(int kind, const char* tok, KeyTok* k) {
   char nm[40]; memcpy(nm, tok, nl); nm[nl] = 0;
   if (!parse_u64(colon + 1, &k->hash)) return 0;
   if (kind == KS) {
-    for (size_t i = 0; i < nl; i++) { char c = nm[i]; if (!((c >= '0' && c <= '9') || (c >= 'a' && c <= 'z') || (c >= 'A' && c <= 'Z') || c == '_')) return 0; }
+    if (decode_name(nm, nl, k->raw, sizeof k->raw) <= 0) return 0;
     snprintf(k->name, sizeof k->name, "%s", nm); return 1;
   }
   if (!parse_i64(nm, &k->id)) return 0;
   snprintf(k->name, sizeof k->name, "%" PRId64, k->id); return 1;
 }
-#define KEYOBJ(kind, k) ((kind) == KI ? (var)$I((k).id) : (kind) == KS ? (var)$S((k).name) : (var)$(PKey, (k).id, (k).hash, NULL))
+#define KEYOBJ(kind, k) ((kind) == KI ? (var)$I((k).id) : (kind) == KS ? (var)$S((k).raw) : (var)$(PKey, (k).id, (k).hash, NULL))
 #define VALOBJ(kind, v) ((kind) == KP ? (var)$(PVal, (v), NULL) : (var)$I(v))
 
 static var make_table(int kind) {
@@ -234,8 +265,7 @@ static void verify(var tab, int ti) {
   /* public interface: foreach yields each key exactly once, get/mem agree for every binding */
   epoch++; size_t seen_n = 0;
   foreach (k in tab) {
-    char nm[40];
-    if (kind == KI) snprintf(nm, sizeof nm, "%" PRId64, (int64_t)c_int(k)); else if (kind == KS) snprintf(nm, sizeof nm, "%s", c_str(k)); else snprintf(nm, sizeof nm, "%" PRId64, ((struct PKey*)k)->id);
+    char nm[40]; obj_key_name(kind, k, nm, sizeof nm);
     ONode* n = map_find(m, nm); seen_n++;
     if (!n) XF("table-iter", "iteration yields key %s which is not bound", nm);
     else if (n->stamp == epoch) XF("table-iter", "iteration yields key %s twice", nm);
@@ -244,7 +274,8 @@ static void verify(var tab, int ti) {
   }
   if (seen_n != m->count) XF("table-iter", "iteration yields %zu keys want %zu", seen_n, m->count);
   for (size_t b = 0; b < NB; b++) for (ONode* n = m->b[b]; n; n = n->next) {
-    KeyTok k; memset(&k, 0, sizeof k); snprintf(k.name, sizeof k.name, "%s", n->name); k.hash = n->hash; if (kind != KS) k.id = strtoll(n->name, NULL, 10);
+    KeyTok k; memset(&k, 0, sizeof k); snprintf(k.name, sizeof k.name, "%s", n->name); k.hash = n->hash;
+    if (kind != KS) k.id = strtoll(n->name, NULL, 10); else decode_name(n->name, strlen(n->name), k.raw, sizeof k.raw);
     var exc; var r = NULL; V_TRY(exc, r = get(tab, KEYOBJ(kind, k)));
     if (exc) XF("table-get", "get of bound key %s raised %s", n->name, v_exc_name(exc));
     else if (val_int(kind, r) != n->val) XF("table-get", "get %s = %" PRId64 " want %" PRId64, n->name, val_int(kind, r), n->val);
@@ -290,7 +321,11 @@ int main(int argc, char** argv) {
   if (argc < 2) { fprintf(stderr, "usage: h_table <opfile> | h_table --hashes <file>\n"); return 2; }
   if (strcmp(argv[1], "--hashes") == 0 && argc >= 3) {     /* service for the generator: real hash of each line as a String key */
     size_t n; char** ls = v_read_lines(argv[2], &n);
-    for (size_t i = 0; i < n; i++) printf("%" PRIu64 "\n", hash($S(ls[i])));
+    for (size_t i = 0; i < n; i++) {       /* a line is a key text (`~hh` escapes); anything else is hashed as it stands */
+      char raw[256]; size_t ll = strlen(ls[i]);
+      if (ll >= sizeof raw || decode_name(ls[i], ll, raw, sizeof raw) < 0) printf("%" PRIu64 "\n", hash($S(ls[i])));
+      else printf("%" PRIu64 "\n", hash($S(raw)));
+    }
     return 0;
   }
   size_t n; char** lines = v_read_lines(argv[1], &n);
@@ -328,7 +363,7 @@ int main(int argc, char** argv) {
       if (!parse_key(kind, w[2], &k)) { O("bad-op"); continue; }
       if (op[0] == 's' && !parse_i64(w[3], &v)) { O("bad-op"); continue; }
       if (!seen_ok(kind, k.name, k.hash)) { O("bad-op"); continue; }
-      if (kind == KS) { uint64_t rh = hash($S(k.name)); if (rh != k.hash) { XF("table-stale-hash", "op file says hash(%s) = %" PRIu64 ", the library says %" PRIu64, k.name, k.hash, rh); k.hash = rh; } }
+      if (kind == KS) { uint64_t rh = hash($S(k.raw)); if (rh != k.hash) { XF("table-stale-hash", "op file says hash(%s) = %" PRIu64 ", the library says %" PRIu64, k.name, k.hash, rh); k.hash = rh; } }
     } else if (is_pair_op) {
       nk = w[2][0] == 'I' ? KI : w[2][0] == 'S' ? KS : KP;
       int rest = nw - 3, bad = 0; np = rest / 2; odd = rest % 2;
@@ -340,7 +375,7 @@ int main(int argc, char** argv) {
       if (bad) { O("bad-op"); continue; }
       for (int i = 0; i < np + odd && !bad; i++) if (!seen_ok(nk, pk[i].name, pk[i].hash)) bad = 1;
       if (bad) { O("bad-op"); continue; }
-      if (nk == KS) for (int i = 0; i < np + odd; i++) { uint64_t rh = hash($S(pk[i].name)); if (rh != pk[i].hash) { XF("table-stale-hash", "op file says hash(%s) = %" PRIu64 ", the library says %" PRIu64, pk[i].name, pk[i].hash, rh); pk[i].hash = rh; } }
+      if (nk == KS) for (int i = 0; i < np + odd; i++) { uint64_t rh = hash($S(pk[i].raw)); if (rh != pk[i].hash) { XF("table-stale-hash", "op file says hash(%s) = %" PRIu64 ", the library says %" PRIu64, pk[i].name, pk[i].hash, rh); pk[i].hash = rh; } }
     } else if (strcmp(op, "new") == 0 && nw == 3 && strlen(w[2]) == 1 && strchr("ISP", w[2][0])) { nk = w[2][0] == 'I' ? KI : w[2][0] == 'S' ? KS : KP; }
     else if ((strcmp(op, "len") == 0 || strcmp(op, "iter") == 0 || strcmp(op, "riter") == 0 || strcmp(op, "check") == 0) && nw == 2) { }
     else if (strcmp(op, "resize") == 0 && nw == 3 && parse_u64(w[2], &un) && un <= 4000000) { }
@@ -378,7 +413,8 @@ int main(int argc, char** argv) {
       else if (exc != KeyError) XF("table-keyerror", "get of absent key %s: %s, want KeyError", k.name, exc ? v_exc_name(exc) : "a value");
       if (t->nslots != nslots0 || t->nitems != nitems0 || (small0 && checksum(t, kind) != cs0)) XF("table-changed-on-error", "get %s changed the table", k.name);
     } else if (strcmp(op, "getk") == 0 || strcmp(op, "getv") == 0) {
-      /* the key argument lives in the table's own slot array: Table_Get's address test (Table.c:523-525) answers without probing */
+      /* the key argument lives in the table's own slot array: Table_Get's address test answers without probing only for the stored key
+         object of an occupied record (fix bc940bb); the value object of a record is read like any other object */
       int viakey = op[3] == 'k';
       var v1 = NULL, r = NULL; V_TRY(exc, v1 = get(tabs[ti], KEYOBJ(kind, k)));
       ONode* nd = map_find(m, k.name);
@@ -398,10 +434,10 @@ int main(int argc, char** argv) {
           /* what the map says about the value object read as a key: Int -> Int tables look the number up; otherwise the object is not a key (cast: ValueError) */
           char vn[40]; snprintf(vn, sizeof vn, "%" PRId64, nd->val);
           ONode* n2 = kind == KI ? map_find(m, vn) : NULL;
-          if (kind != KI) { if (e2 != ValueError) XF("table-get-alias", "get(t, get(t, %s)): the value object is not of the key type, want ValueError, got %s", k.name, e2 ? v_exc_name(e2) : "a value"); }
-          else if (!n2) { if (e2 != KeyError) XF("table-get-alias", "get(t, get(t, %s)): key %s is not bound, want KeyError, got %s", k.name, vn, e2 ? v_exc_name(e2) : "a value"); }
-          else if (e2) XF("table-get-alias", "get(t, get(t, %s)): key %s is bound, got %s", k.name, vn, v_exc_name(e2));
-          else if (val_int(kind, r) != n2->val) XF("table-get-alias", "get(t, get(t, %s)) = %" PRId64 ", the map binds %s to %" PRId64, k.name, val_int(kind, r), vn, n2->val);
+          if (kind != KI) { if (e2 != ValueError) XF("table-get-slot-object", "get(t, get(t, %s)): the value object is not of the key type, want ValueError, got %s", k.name, e2 ? v_exc_name(e2) : "a value"); }
+          else if (!n2) { if (e2 != KeyError) XF("table-get-slot-object", "get(t, get(t, %s)): key %s is not bound, want KeyError, got %s", k.name, vn, e2 ? v_exc_name(e2) : "a value"); }
+          else if (e2) XF("table-get-slot-object", "get(t, get(t, %s)): key %s is bound, got %s", k.name, vn, v_exc_name(e2));
+          else if (val_int(kind, r) != n2->val) XF("table-get-slot-object", "get(t, get(t, %s)) = %" PRId64 ", the map binds %s to %" PRId64, k.name, val_int(kind, r), vn, n2->val);
         }
       }
       if (t->nslots != nslots0 || t->nitems != nitems0 || (small0 && checksum(t, kind) != cs0)) XF("table-changed-on-error", "%s %s changed the table", op, k.name);
@@ -420,8 +456,7 @@ int main(int argc, char** argv) {
       epoch++;
       var cur = fwd ? iter_init(tabs[ti]) : iter_last(tabs[ti]);
       while (cur != Terminal) {
-        char nm[40];
-        if (kind == KI) snprintf(nm, sizeof nm, "%" PRId64, (int64_t)c_int(cur)); else if (kind == KS) snprintf(nm, sizeof nm, "%s", c_str(cur)); else snprintf(nm, sizeof nm, "%" PRId64, ((struct PKey*)cur)->id);
+        char nm[40]; obj_key_name(kind, cur, nm, sizeof nm);
         int64_t vv = val_int(kind, get(tabs[ti], cur));
         c = mix(mix(c, hash(cur)), (uint64_t)vv);
         if (cnt < ITERMAX) dput(" %s:%" PRId64, nm, vv);
@@ -457,7 +492,7 @@ int main(int argc, char** argv) {
       var ko[MAXPAIRS + 1], vo[MAXPAIRS + 1];
       for (int i = 0; i < np + odd; i++) {
         if (nk == KI) ko[i] = new_raw(Int, $I(pk[i].id));
-        else if (nk == KS) ko[i] = new_raw(String, $S(pk[i].name));
+        else if (nk == KS) ko[i] = new_raw(String, $S(pk[i].raw));
         else { ko[i] = alloc_raw(PKey); ((struct PKey*)ko[i])->id = pk[i].id; ((struct PKey*)ko[i])->hash = pk[i].hash; ((struct PKey*)ko[i])->tok = NULL; }
         if (i < np) { if (nk == KP) { vo[i] = alloc_raw(PVal); ((struct PVal*)vo[i])->v = pv[i]; ((struct PVal*)vo[i])->tok = NULL; } else vo[i] = new_raw(Int, $I(pv[i])); }
       }
